@@ -1,9 +1,10 @@
 import EyeballVerif.Driver.Text
 import EyeballVerif.Driver.Vec
+import EyeballVerif.Driver.Adp
 open EV
 
 structure DState where
-  ov : OV Nat := OV.new 16
+  adp : AdpSt := {}
 
 def stepLine (st : DState) (line : String) : DState × String :=
   let toks := (line.trimAscii.toString.splitOn " ").filter (· ≠ "")
@@ -17,8 +18,8 @@ def stepLine (st : DState) (line : String) : DState × String :=
     | some f, some d, some l => (st, (d.map f).show ++ " " ++ showOptList ((d.map f).apply (l.map f)))
     | _, _, _ => (st, "bad-op")
   | _ =>
-    match vecStep st.ov toks with
-    | some (ov, out) => ({ st with ov }, out)
+    match adpStep st.adp toks with
+    | some (adp, out) => ({ st with adp }, out)
     | none => (st, "bad-op")
 
 partial def loop (h : IO.FS.Stream) (out : IO.FS.Stream) (st : DState) : IO Unit := do
